@@ -16,7 +16,7 @@ SHARDS = {"quick": 8, "thorough": 16}
 RULE = (
     "case = whole run of sampler in {importance, smc (MiniPCN kernel), emcee_smc, minipcn, emcee} x preconditioning option "
     "set x namespace x width x proposal leaking 0-70% of its mass outside the prior support x N x n_final_samples x schedule "
-    "x checkpoint cadence x resume from a generated checkpoint. The user likelihood is wrapped by a recorder. Oracle at EVERY "
+    "x checkpoint cadence x resume from a generated checkpoint, plus Aspire.convert_to_samples on generated points. The user likelihood is wrapped by a recorder. Oracle at EVERY "
     "call: the argument's log_prior is not None, has one value per row, and equals pi recomputed (float64 reference) on the "
     "argument's own coordinates; after the run Aspire.n_likelihood_evaluations == sum of rows over all recorded calls (for a "
     "resumed run: the calls of that run; for a run in which the likelihood raises at a generated call: including that call). Non-trivial = >=3 distinct aspire call sites reached the likelihood in the run "
@@ -111,6 +111,28 @@ def run_case(case, ctx):
             _check_calls(P2, ctx, case, "resumed:")
         resumed = True
         labels.append("resumed")
+    # the instance-level entry point that evaluates user-supplied points (prior first, then likelihood)
+    Pc = rc.Problem(case)
+    g = np.random.default_rng(case["seed"])
+    pts = Pc.lo + (Pc.hi - Pc.lo) * g.uniform(-0.1, 1.1, size=(7, case["d"]))  # some points outside the prior support
+    ok, conv = ctx.guard("convert_to_samples", Pc.aspire.convert_to_samples, pts, log_q=Pc.flow._log_q(pts), case=case)
+    if ok:
+        if len(Pc.calls) != 1:
+            ctx.fail("convert:calls", f"convert_to_samples called the likelihood {len(Pc.calls)} times", case)
+        else:
+            Pc2 = Pc
+            _check_one = Pc2.calls[0]
+            if _check_one["lp"] is None:
+                ctx.fail("convert:prior-missing", "convert_to_samples called the likelihood on samples without log_prior", case)
+            else:
+                ref = Pc2.P_ref(_check_one["x"].reshape(-1, case["d"]))
+                lp = np.asarray(_check_one["lp"]).reshape(-1)
+                tol = 1e-12 if _check_one.get("lp_width") == "float64" else 4e-6
+                with np.errstate(all="ignore"):
+                    bad = ~((lp == ref) | (np.abs(lp - ref) <= tol * (np.abs(ref) + 1)))
+                if lp.shape != ref.shape or bad.any():
+                    ctx.fail("convert:prior-mismatch", "convert_to_samples handed the likelihood a log_prior that is not the prior of those points", case)
+        labels.append("convert_to_samples")
     if case.get("fault_call") is not None and len(P.calls) > 1:
         k = case["fault_call"] % len(P.calls)
         Pf = rc.Problem(case, fault_at=k)
